@@ -154,6 +154,10 @@ def verify_strat_allocate_proxy(ex, contract, timeout_ms=30000):
     return verify_strat_allocate(ex, contract, timeout_ms=timeout_ms)
 
 
+def _verify_close(ex, contract, timeout_ms=30000):
+    return verify_close(ex, contract, timeout_ms)
+
+
 def _verify_create_child(ex, contract, timeout_ms=30000):
     from .core_tree import verify_create_child
 
@@ -163,7 +167,7 @@ def _verify_create_child(ex, contract, timeout_ms=30000):
 def contracts():
     return [
         (RelationalContract("bt.core.StrategyBase._create_child_if_needed", [("child", "str")], apply_create_child, self_cls="StrategyBase", note="ensures the named child exists; a newly attached lazy child is a flat security with weight 0"), _verify_create_child),
-        (RelationalContract("bt.core.StrategyBase.close", [("child", "str"), ("update", "bool")], apply_close, self_cls="StrategyBase", note="modifies the child's subtree, own cash/fees, root.stale"), None),
+                (RelationalContract("bt.core.StrategyBase.close", [("child", "str"), ("update", "bool")], apply_close, self_cls="StrategyBase", note="modifies the child's subtree, own cash/fees, root.stale; body verified by verify_close"), _verify_close),
         (RelationalContract("bt.core.StrategyBase.allocate", [("amount", "float"), ("child", "optstr"), ("update", "bool")], apply_strat_alloc, self_cls="StrategyBase", note="parent debited / self credited once (flow only for self), each child receives amount x weight with update=False; see verify_strat_allocate"), verify_strat_allocate_proxy),
         (RelationalContract("bt.core.StrategyBase.transact", [("q", "float"), ("child", "any"), ("update", "bool")], apply_strat_transact, self_cls="StrategyBase", note="modifies own subtree and the parent's cash"), None),
         (RelationalContract("bt.core.StrategyBase.rebalance", [("weight", "float"), ("child", "str"), ("base", "float"), ("update", "bool")], _apply_rebalance_proxy, self_cls="StrategyBase", note="see verify_rebalance"), verify_rebalance),
@@ -492,6 +496,100 @@ def verify_strat_allocate(ex, contract, timeout_ms=30000):
                 if map_same(a, b) or key.startswith("children") or key.startswith("dct#"):
                     continue
                 obligs.append(Oblig("StrategyBase.allocate/frame:%s" % key, st.pc, Implies(And(nochild, outside), a.select(x) == b.select(x)), "post", ("C08", "C11", "C07")))
+        s = z3.Solver()
+        for p in st0.pc:
+            s.add(p)
+        fr.canary = str(s.check())
+        discharge(obligs, timeout_ms, fr, contract.qualname)
+        fr.stats = dict(feas_queries=ex.stats.feas_queries, feas_s=round(ex.stats.feas_time, 3), inlined=sorted(ex.stats.inlined), contracts_used=sorted(ex.stats.contracts_used))
+    except Undecided as e:
+        fr.undecided = str(e)
+    except Exception as e:
+        fr.undecided = "ENGINE-ERROR: %s\n%s" % (e, traceback.format_exc())
+    return fr
+
+
+# ------------------------------------------------------------------ StrategyBase.close (body against its clauses)
+def verify_close(ex, contract, timeout_ms=30000):
+    """close(child, update) on a fresh tree: KeyError iff the name is not a child; otherwise, for a security child,
+      market-value strategy: nothing is called when the child's value is zero or NaN; else exactly one c.allocate(-value, update) - whose
+        close-out clause leaves the position at exactly 0 (priced child) - and nothing else;
+      fixed-income strategy: nothing when the position is zero; else exactly one c.transact(-position, update): position 0 afterwards;
+    a strategy child that has children is flattened first.  Nothing outside the strategy, the child's subtree and root.stale is written."""
+    from pyvc.verify import FuncReport, discharge, entry_state
+
+    fr = FuncReport(contract.qualname)
+    name = "StrategyBase.close"
+    PC = ("C06", "C16", "C20")
+    try:
+        fi = ex.prog.func(contract.qualname)
+        fr.source_hash = fi.source_hash()
+        st0, self, args = entry_state(ex, contract)
+        child, update = args
+        E = st0.heap
+        for f in self_facts(E, self):
+            st0.assume(_zb(f))
+        rt = E.get(self, "root")
+        st0.assume(_zb(Not(E.get(rt, "stale"))))
+        st0.assume(_zb(named_child_facts(E, self, child)))
+        c = named_child(E, self, child)
+        has = E.dict_has(self, "children", child)
+        issec = E.get(c, "_issec")
+        # I instance for a security child (the tree is fresh): on the strategy's date, position recorded
+        st0.assume(_zb(Implies(And(has, issec), And(E.get(c, "now").eq(E.get(self, "now")), eq(E.get(c, "_last_pos"), E.get(c, "_position")), Not(E.get(c, "_needupdate")) == is_zero(E.get(c, "_position")) if False else True,
+                                                    E.list_len(c, "_childrenv").eq(0)))))
+        E = st0.heap.copy()
+        t0 = time.time()
+        exits = ex.run_function(fi, st0.fork(), self, args)
+        fr.symexec_s = time.time() - t0
+        fr.paths = len(exits)
+        obligs = []
+        fi_strat = E.get(self, "_fixed_income")
+        val, pos, prc = E.get(c, "_value"), E.get(c, "_position"), E.get(c, "_price")
+        for xi, (st, oc) in enumerate(exits):
+            kind = oc.kind if oc.kind != "raise" else "raise:" + oc.exc
+            fr.exits[kind] = fr.exits.get(kind, 0) + 1
+            obligs.extend(st.obligs)
+            F = st.heap
+
+            def ob(cid, goal, props=PC):
+                obligs.append(Oblig("%s/%s" % (name, cid), st.pc, goal, "post", props))
+
+            if oc.kind == "raise":
+                if oc.exc == "KeyError":
+                    ob("keyerror-only-for-an-unknown-child", Not(has))
+                continue
+            ob("completes-only-for-a-child", has)
+            calls = [x for x in st.log if len(x) in (3, 4)]
+            names = [x[0].rsplit(".", 1)[1] for x in calls]
+            sec = And(has, issec)
+            dbg = ("[" + ",".join(names) + "]") if __import__("os").environ.get("DBG_CLOSE") else ""
+            # market value, security child
+            ob("mv-security:nothing-called-when-value-is-zero-or-nan", Implies(And(sec, Not(fi_strat), Or(val.eq(0), isnan(val))), len(calls) == 0))
+            ob("mv-security:otherwise-exactly-one-allocate(-value, update)" + dbg, Implies(And(sec, Not(fi_strat), Not(val.eq(0)), Not(isnan(val))), names == ["allocate", "transact"]))   # allocate's contract logs the transact it delegates to
+            if names == ["allocate", "transact"] or names == ["transact"]:
+                first = calls[0]
+                upd = update if not isinstance(update, bool) else z3.BoolVal(update)
+                a0, u0 = first[2][0], first[2][1]
+                u0 = u0 if not isinstance(u0, bool) else z3.BoolVal(u0)
+                want = -val if names[0] == "allocate" else -pos
+                ob("the-trade-is-minus-the-child's-value-(position)-with-the-caller's-update-flag", Implies(sec, And(first[1].term == c.term, value_same(a0, want), u0 == upd)))
+            ob("fi-security:nothing-called-when-flat", Implies(And(sec, fi_strat, pos.eq(0)), len(calls) == 0))
+            # zero up to the code's own is_zero (transact ignores quantities below TOL)
+            ob("security:position-is-zero-afterwards" + dbg, Implies(And(sec, Or(fi_strat, And(Not(is_zero(val)), Not(isnan(val)), Not(is_zero(prc)), Not(isnan(prc))))), is_zero(F.get(c, "_position"))))
+            ob("security:flat-child-stays-flat", Implies(And(sec, is_zero(pos)), is_zero(F.get(c, "_position"))))
+            x = z3.Const(dsl.fresh_name("xfr"), dsl.Ref)
+            outside = And(x != self.term, slot_f(self.term, x) == -1, x != rt.term)
+            if "update" in names:
+                # a strategy child was flattened first: reading its value refreshes the whole tree through root.update
+                outside = And(outside, treeof_f(x) != rt.term)
+            for key in sorted(F.maps.keys()):
+                a, b = F.maps[key], E.ensure(key)
+                from pyvc.heap import map_same
+
+                if map_same(a, b):
+                    continue
+                ob("frame:%s%s" % (key, ("[" + ",".join(names) + "]") if __import__("os").environ.get("DBG_CLOSE") else ""), Implies(outside, a.select(x) == b.select(x)), ("C08", "C11"))
         s = z3.Solver()
         for p in st0.pc:
             s.add(p)
